@@ -182,6 +182,13 @@ Definition wf_x (steps : list xstep) (ev : list xevent) : Prop :=
 Definition scheduled_x (before : nat -> nat -> bool) (steps : list xstep) (ev : list xevent) : Prop :=
   forall i j, before i j = true -> In i (map fst steps) -> In j (map fst steps) -> idx (EWrite i) ev < idx (ERead j) ev.
 
+(* l is a sequential order compatible with `before` (DataPlaneConc.respects for xsteps) *)
+Fixpoint respects_x (before : nat -> nat -> bool) (l : list xstep) : Prop :=
+  match l with
+  | [] => True
+  | x :: t => (forall y, In y t -> before (fst y) (fst x) = false) /\ respects_x before t
+  end.
+
 (* ---- independence ---- *)
 Definition names (ds : list fdef) : list nat := map fname ds.
 Definition reads (ds : list fdef) : list nat := flat_map inputs ds.
@@ -264,6 +271,11 @@ Definition scheduled_xb (before : nat -> nat -> bool) (steps : list xstep) (ev :
 Definition xdep_orderedb (before : nat -> nat -> bool) (steps : list xstep) : bool :=
   forallb (fun x => forallb (fun y =>
     Nat.eqb (fst x) (fst y) || xindep (snd x) (snd y) || before (fst x) (fst y) || before (fst y) (fst x)) steps) steps.
+Fixpoint respects_xb (before : nat -> nat -> bool) (l : list xstep) : bool :=
+  match l with
+  | [] => true
+  | x :: t => forallb (fun y => negb (before (fst y) (fst x))) t && respects_xb before t
+  end.
 Definition all_self_ok (steps : list xstep) : bool := forallb (fun x => self_ok (snd x)) steps.
 
 (* ---- bridge to the classifier OrchCheck.conflict_free_ip ---- *)
